@@ -39,7 +39,7 @@ def digits(rng, n):
 
 
 def cases(ctx):
-    reps = 20 if ctx.tier == 'quick' else 150
+    reps = 20 if ctx.tier == 'quick' else 900
     i = 0
     rng = ctx.rng_global('cases')
     flv = ['iso0:plain', 'iso4:plain', 'iso0:predefined_tdes', 'iso4:predefined_aes', 'iso0:type_built_tdes',
